@@ -234,4 +234,33 @@ theorem double_enc (canon : String → Option String) (lex c : String) (p : Nat)
 example : minMax tInteger 7 = some (-3, 3) ∧ intFromStr "-3.0E0" = some (-3) ∧ intFromStr "4" = some 4 := by decide
 example : intFromStr "1.5" = none ∧ intFromStr "abc" = none ∧ intFromStr "15e-1" = none ∧ intFromStr "150e-1" = some 15 := by decide
 
+/-! ### the day count behind `time_enc` is the calendar's: consecutive days have consecutive numbers -/
+
+/-- 1970-01-01 is day 0 -/
+theorem epoch_day : daysFromCivil 1970 1 1 = 0 := by decide
+
+/-- the next day of the same month -/
+theorem next_day_same_month (y m d : Nat) : daysFromCivil y m (d+1) = daysFromCivil y m d + 1 := by
+  unfold daysFromCivil
+  simp only
+  split <;> split <;> omega
+
+/-- the first of the next month follows the last day of the month (28/29 days for February by the Gregorian leap
+    rule, 30 or 31 otherwise) -/
+theorem next_day_month_rollover (y m : Nat) (h1 : 1 ≤ m) (h2 : m < 12) :
+    daysFromCivil y (m+1) 1 = daysFromCivil y m (daysIn m y) + 1 := by
+  have hm : m = 1 ∨ m = 2 ∨ m = 3 ∨ m = 4 ∨ m = 5 ∨ m = 6 ∨ m = 7 ∨ m = 8 ∨ m = 9 ∨ m = 10 ∨ m = 11 := by omega
+  rcases hm with h | h | h | h | h | h | h | h | h | h | h <;> subst h
+  case inr.inl =>
+    unfold daysFromCivil daysIn isLeap
+    simp
+    split <;> omega
+  all_goals (unfold daysFromCivil daysIn isLeap; simp <;> omega)
+
+/-- January 1st follows December 31st, for every year -/
+theorem next_day_year_rollover (y : Nat) : daysFromCivil (y+1) 1 1 = daysFromCivil y 12 31 + 1 := by
+  unfold daysFromCivil
+  simp
+  omega
+
 end Gsp.Props.C04
